@@ -368,7 +368,7 @@ func TestVerif_C10_Histories(t *testing.T) {
 	vfProperty(t, "C10", vfOpts{
 		Rule: "pair histories: non-trivial = at least two completed rounds between peers of which at least one has a generated (non-default) MediaEngine configuration",
 	}, func(v *vfT) vfFamBPCase {
-		return vfFamBGenPair(v.R, 1, 4, true, false)
+		return vfFamBGenPair(v.R, 1, 4, true, false, false)
 	}, func(v *vfT, c vfFamBPCase) {
 		var all []vfFamBFinding
 		st := vfFamBRunPair(v, c, func(ev vfFamBPEvent) {
